@@ -69,6 +69,7 @@ type Point struct {
 	Bucket   string
 	Kind     string
 	Ordinal  int
+	Failed   bool // at TxEnd: the transaction rolled back
 }
 
 type txState struct {
@@ -378,7 +379,7 @@ func (p *Proxy) run(writable bool, f func(diskstore.BucketManager) error) error 
 			p.snapshot()
 		}
 		if h := p.Hook; h != nil {
-			h(Point{TxID: tx.id, Writable: writable, Kind: KEnd})
+			h(Point{TxID: tx.id, Writable: writable, Kind: KEnd, Failed: err != nil})
 		}
 	}
 	return err
